@@ -167,6 +167,12 @@ pub fn fit_depth(mut c: YuvConfig, u8_out: bool) -> YuvConfig {
     c
 }
 
+/// copy with spare capacity (see `float_img`)
+fn spare(d: &[[f32; 3]]) -> Vec<[f32; 3]> {
+    let mut v = Vec::with_capacity(d.len() + 5);
+    v.extend_from_slice(d);
+    v
+}
 /// Apply an edge. The image is taken by reference and cloned where the impl consumes it, so that
 /// callers can check that borrowed sources are left unmodified.
 pub fn apply(e: Edge, img: &Img, p: &Params) -> Result<Img, ConversionError> {
@@ -213,6 +219,37 @@ pub fn apply(e: Edge, img: &Img, p: &Params) -> Result<Img, ConversionError> {
             }
         }
         (e, i) => panic!("harness bug: edge {e:?} not applicable to {:?}", i.kind()),
+    })
+}
+
+/// Apply an edge consuming the image (no clone in between): the library receives the very object,
+/// including its allocation (spare capacity) and any hidden state.
+pub fn apply_owned(e: Edge, img: Img, p: &Params) -> Result<Img, ConversionError> {
+    let t = p.cfg.transfer_characteristics;
+    let cp = p.cfg.color_primaries;
+    Ok(match (e, img) {
+        (Edge::RgbToLin, Img::Rgb(r)) => Img::Lin(LinearRgb::try_from(r)?),
+        (Edge::RgbToXyb, Img::Rgb(r)) => Img::Xyb(Xyb::try_from(r)?),
+        (Edge::LinToXyb, Img::Lin(l)) => Img::Xyb(Xyb::from(l)),
+        (Edge::LinToHsl, Img::Lin(l)) => Img::Hsl(Hsl::from(l)),
+        (Edge::XybToLin, Img::Xyb(x)) => Img::Lin(LinearRgb::from(x)),
+        (Edge::HslToLin, Img::Hsl(h)) => Img::Lin(LinearRgb::from(h)),
+        (Edge::LinToRgb, Img::Lin(l)) => Img::Rgb(Rgb::try_from((l, t, cp))?),
+        (Edge::XybToRgb, Img::Xyb(x)) => Img::Rgb(Rgb::try_from((x, t, cp))?),
+        (Edge::RgbToYuv { by_ref: false, u8_out: true }, Img::Rgb(r)) => Img::Yuv8(Yuv::<u8>::try_from((r, fit_depth(p.cfg, true)))?),
+        (Edge::RgbToYuv { by_ref: false, u8_out: false }, Img::Rgb(r)) => Img::Yuv16(Yuv::<u16>::try_from((r, fit_depth(p.cfg, false)))?),
+        (Edge::LinToYuv { u8_out: true }, Img::Lin(l)) => Img::Yuv8(Yuv::<u8>::try_from((l, fit_depth(p.cfg, true)))?),
+        (Edge::LinToYuv { u8_out: false }, Img::Lin(l)) => Img::Yuv16(Yuv::<u16>::try_from((l, fit_depth(p.cfg, false)))?),
+        (Edge::XybToYuv { u8_out: true }, Img::Xyb(x)) => Img::Yuv8(Yuv::<u8>::try_from((x, fit_depth(p.cfg, true)))?),
+        (Edge::XybToYuv { u8_out: false }, Img::Xyb(x)) => Img::Yuv16(Yuv::<u16>::try_from((x, fit_depth(p.cfg, false)))?),
+        (Edge::YuvToRgb { by_ref: false }, Img::Yuv8(y)) => Img::Rgb(Rgb::try_from(y)?),
+        (Edge::YuvToRgb { by_ref: false }, Img::Yuv16(y)) => Img::Rgb(Rgb::try_from(y)?),
+        (Edge::YuvToLin { by_ref: false }, Img::Yuv8(y)) => Img::Lin(LinearRgb::try_from(y)?),
+        (Edge::YuvToLin { by_ref: false }, Img::Yuv16(y)) => Img::Lin(LinearRgb::try_from(y)?),
+        (Edge::YuvToXyb { by_ref: false }, Img::Yuv8(y)) => Img::Xyb(Xyb::try_from(y)?),
+        (Edge::YuvToXyb { by_ref: false }, Img::Yuv16(y)) => Img::Xyb(Xyb::try_from(y)?),
+        // borrowing impls: nothing is consumed
+        (e, img) => apply(e, &img, p)?,
     })
 }
 
